@@ -47,3 +47,24 @@ pub fn counts(seed: u64, n: usize, p: usize) -> Array2<f64> {
         (base + r.below(3)) as f64
     })
 }
+
+/// empty (zero-sample) companions of the tiny datasets: same number of columns, no rows
+pub trait EmptyLike {
+    fn empty_like(&self) -> Self;
+}
+impl<T: Clone> EmptyLike for Array1<T> {
+    fn empty_like(&self) -> Self {
+        Array1::from(Vec::<T>::new())
+    }
+}
+impl EmptyLike for Array2<f64> {
+    fn empty_like(&self) -> Self {
+        Array2::zeros((0, self.ncols()))
+    }
+}
+pub fn empty_records(x: &Array2<f64>) -> Array2<f64> {
+    Array2::zeros((0, x.ncols()))
+}
+pub fn empty_ds<T: EmptyLike>(ds: &linfa::DatasetBase<Array2<f64>, T>) -> linfa::DatasetBase<Array2<f64>, T> {
+    linfa::DatasetBase::new(empty_records(ds.records()), ds.targets().empty_like())
+}
